@@ -1,12 +1,21 @@
 #!/bin/bash
-# selftest.sh [pattern] — applies each own mutant to /repo, runs the quick check of its property, expects a VIOLATION, reverts.
-cd /verif
+# selftest.sh [pattern] — applies each own mutant to the repository, runs the quick check of its property, expects a VIOLATION, reverts.
+# Prints one line per mutant and appends a table to mutants/RESULTS.md. VERIF_REPO (default /repo) names the checkout to mutate
+# (a scratch worktree lets this run while /repo itself is being checked).
+ROOT=$(cd "$(dirname "$0")/.." && pwd)
+REPO=${VERIF_REPO:-/repo}
+cd "$ROOT"
 PAT=${1:-C}
+OUT=mutants/RESULTS.md
+{ echo "# Own mutants"; echo; echo "Each patch is applied to a checkout of the repository ($REPO at $(git -C $REPO rev-parse --short HEAD)), the quick check of its property is run, the patch is reverted."; echo "Run: \`tools/selftest.sh\`. Last run: $(date -u +%Y-%m-%dT%H:%MZ)."; echo; echo "| mutant | check exit | first signatures |"; echo "|---|---|---|"; } > $OUT.new
 for f in mutants/${PAT}*.patch; do
   id=$(basename $f .patch); prop=${id%%-*}
-  git -C /repo apply "$f" || { echo "$id apply-failed"; continue; }
+  git -C $REPO apply "$ROOT/$f" || { echo "$id apply-failed"; echo "| $id | apply failed | |" >> $OUT.new; continue; }
   out=$(./vcheck $prop --tier quick 2>&1); rc=$?
-  git -C /repo checkout -- . >/dev/null 2>&1
-  sig=$(echo "$out" | grep -o 'sig="[^"]*"' | head -3 | tr '\n' ' ')
+  git -C $REPO checkout -- . >/dev/null 2>&1
+  sig=$(echo "$out" | grep -o 'sig="[^"]*"' | sort -u | head -3 | tr '\n' ' ')
   echo "$id exit=$rc $sig"
+  echo "| $id | $rc | $(echo $sig | sed 's/|/\//g') |" >> $OUT.new
 done
+mv $OUT.new $OUT
+git -C "$ROOT" checkout -- evidence replays 2>/dev/null; git -C "$ROOT" clean -fdq replays
